@@ -58,9 +58,17 @@ def nontrivial(c, o):
 def run(tier, seed, replay=None):
     chk = core.Check("C01", tier, seed)
     proof = core.proof_step("C01", thorough=(tier == "thorough"))
-    cases = [replay["replay"]["case"]] if replay else gen(seed, tier)
-    outs, corr, orac = flow.differential(chk, "synth", cases, sy.to_coq, sy.IMPORTS, run_fn="run_c01", describe=sy.describe,
-                                          component="create_node / deciders", kind=lambda c: c["decider"][0], chunk=40, coq_regions=("F38",))
+    rep_replay = bool(replay and "case_full" in replay["replay"])
+    cases = [] if rep_replay else [replay["replay"]["case"]] if replay else gen(seed, tier)
+    outs, corr, orac = (None, [], []) if rep_replay else flow.differential(
+        chk, "synth", cases, sy.to_coq, sy.IMPORTS, run_fn="run_c01", describe=sy.describe,
+        component="create_node / deciders", kind=lambda c: c["decider"][0], chunk=40, coq_regions=("F38",))
+    # the programs handed out by every representation after create / map / mutate / crossover (incl. the stack representation)
+    from harness.props import c06, rep_common as rc
+    rcases = [replay["replay"]["case_full"]] if rep_replay else [] if replay else rc.gen_variation_cases(flow.rng(seed, "c01r"), tier)
+    ph = c06.rep_phase(chk, "C01", "run_c01r", ("F03",), rcases, component="programs returned by the representations") if rcases else None
+    if rep_replay and ph:
+        print("replayed", len(ph["ecs"]), "operations: correspondence", "FAILS" if ph["corr"] else "ok", "| contract", "FAILS" if ph["orac"] else "holds")
     if replay and outs:
         print("replayed:", sy.describe(cases[0], outs[0]))
         print("correspondence", "FAILS" if corr else "ok", "| contract", "FAILS" if orac else "holds")
@@ -83,7 +91,9 @@ def run(tier, seed, replay=None):
             for t in cl["fields"]:
                 forms[t[0]] = forms.get(t[0], 0) + 1
     cov = {
-        "evaluations": len(cases),
+        "representation_operations": ({"operations": ph["operations"], "errors": ph["errors"], "known_region_hits": ph["hits"],
+                                       "correspondence_mismatches": len(ph["corr"]), "oracle_failures": len(ph["orac"])} if ph else None),
+        "evaluations": len(cases) + (len(ph["ecs"]) if ph else 0),
         "distinct_nontrivial": flow.distinct_nontrivial(cases, outs or [], nontrivial) if outs else 0,
         "traces_validated_against_impl": len(cases),
         "correspondence_mismatches": len(corr), "oracle_failures": len(orac),
